@@ -360,36 +360,39 @@ func ruleExhaustionSticky(r *Report, rule string) {
 	info := fi.Pkg.TypesInfo
 	g := buildCFG(info, fi.Decl.Body)
 	n := 0
-	for _, rs := range returnsOf(fi.Decl.Body) {
-		if len(rs.Results) != 2 || exprStr(rs.Results[1]) != "false" {
-			continue
-		}
-		n++
-		ok := false
-		for _, f := range g.GuardsOf(rs) {
-			be, isB := ast.Unparen(f.Expr).(*ast.BinaryExpr)
-			if isB && be.Op == token.EQL && f.Truth && strings.HasSuffix(exprStr(be.Y), "Finished") && isField(info, be.X, "unadornedPostingsIterator1Hit", "docNum") {
-				ok = true
-			}
-		}
+	isDocNum := func(e ast.Expr) bool {
+		return isField(info, resolveCopies(info, fi.Decl.Body, e), "unadornedPostingsIterator1Hit", "docNum")
+	}
+	markedBefore := func(rs *ast.ReturnStmt) bool {
 		for _, st := range storesToField(info, fi.Decl.Body, "unadornedPostingsIterator1Hit", "docNum") {
 			if strings.HasSuffix(exprStr(st.Rhs), "Finished") && g.DominatesNode(st.Stmt, rs) {
-				ok = true
+				return true
 			}
 		}
-		r.Ob(rule, fi.Name+"/exhausted-implies-finished", rs.Pos(), ok, "every `return 0, false` happens with the iterator already marked finished or marks it finished first: otherwise a following Next() on the same iterator returns the hit that was just skipped (an Advance result smaller than its target)")
+		return false
 	}
-	// the hit itself is consumed when returned
 	for _, rs := range returnsOf(fi.Decl.Body) {
-		if len(rs.Results) == 2 && exprStr(rs.Results[1]) == "true" {
-			n++
-			ok := false
-			for _, st := range storesToField(info, fi.Decl.Body, "unadornedPostingsIterator1Hit", "docNum") {
-				if strings.HasSuffix(exprStr(st.Rhs), "Finished") && g.DominatesNode(st.Stmt, rs) {
+		if len(rs.Results) == 0 {
+			continue
+		}
+		// "nothing (more)": the first result is the zero value - `0, false` or `nil, nil`
+		first := ast.Unparen(rs.Results[0])
+		nothing := isNilIdent(info, first)
+		if tv, ok := info.Types[first]; ok && tv.Value != nil && tv.Value.Kind() == constant.Int && constant.Sign(tv.Value) == 0 {
+			nothing = true
+		}
+		n++
+		if nothing {
+			ok := markedBefore(rs)
+			for _, f := range g.GuardsOf(rs) {
+				be, isB := ast.Unparen(f.Expr).(*ast.BinaryExpr)
+				if isB && f.Tag == nil && be.Op == token.EQL && f.Truth && strings.HasSuffix(exprStr(be.Y), "Finished") && isDocNum(be.X) {
 					ok = true
 				}
 			}
-			r.Ob(rule, fi.Name+"/returned-hit-is-consumed", rs.Pos(), ok, "the single hit is marked consumed before it is returned (it must not be returned twice)")
+			r.Ob(rule, fi.Name+"/exhausted-implies-finished", rs.Pos(), ok, "every \"no more hits\" return happens with the iterator already marked finished or marks it finished first: otherwise a following Next() on the same iterator returns the hit that was just skipped (an Advance result smaller than its target)")
+		} else {
+			r.Ob(rule, fi.Name+"/returned-hit-is-consumed", rs.Pos(), markedBefore(rs), "the single hit is marked consumed before it is returned (it must not be returned twice)")
 		}
 	}
 	if n < 3 {
@@ -1297,6 +1300,72 @@ func ruleInclusiveFlagsSingleInterpreter(r *Report, rule string) {
 				}
 				return true
 			})
+			// other idiom: `v := CONST` ... `if P != nil { v = *P }` (a value local instead of re-pointing P)
+			valueLocal := false
+			if !found {
+				ast.Inspect(fi.Decl.Body, func(x ast.Node) bool {
+					as, ok := x.(*ast.AssignStmt)
+					if !ok || len(as.Lhs) != len(as.Rhs) {
+						return true
+					}
+					for k := range as.Rhs {
+						st, isStar := ast.Unparen(as.Rhs[k]).(*ast.StarExpr)
+						if !isStar || objOf(info, st.X) != prm {
+							continue
+						}
+						lo := objOf(info, as.Lhs[k])
+						if lo == nil {
+							continue
+						}
+						notNil := factMatch(g.GuardsOf(as), func(fc Fact) bool {
+							e, isEq, isNil := nilTest(info, fc.Expr)
+							return fc.Tag == nil && isNil && isEq != fc.Truth && objOf(info, e) == prm
+						})
+						if !notNil {
+							continue
+						}
+						// the other definition(s) of the local: constants
+						ast.Inspect(fi.Decl.Body, func(y ast.Node) bool {
+							switch d := y.(type) {
+							case *ast.AssignStmt:
+								if d != as && len(d.Lhs) == len(d.Rhs) {
+									for q := range d.Lhs {
+										if objOf(info, d.Lhs[q]) == lo {
+											if tv, ok := info.Types[d.Rhs[q]]; ok && tv.Value != nil && tv.Value.Kind() == constant.Bool {
+												got, found, valueLocal = constant.BoolVal(tv.Value), true, true
+											}
+										}
+									}
+								}
+							case *ast.ValueSpec:
+								for q, nm := range d.Names {
+									if info.Defs[nm] == lo && q < len(d.Values) {
+										if tv, ok := info.Types[d.Values[q]]; ok && tv.Value != nil && tv.Value.Kind() == constant.Bool {
+											got, found, valueLocal = constant.BoolVal(tv.Value), true, true
+										}
+									}
+								}
+							}
+							return true
+						})
+					}
+					return true
+				})
+			}
+			if valueLocal {
+				ast.Inspect(fi.Decl.Body, func(x ast.Node) bool {
+					st, ok := x.(*ast.StarExpr)
+					if ok && objOf(info, st.X) == prm {
+						n++
+						guarded := factMatch(g.GuardsOf(st), func(fc Fact) bool {
+							e, isEq, isNil := nilTest(info, fc.Expr)
+							return fc.Tag == nil && isNil && isEq != fc.Truth && objOf(info, e) == prm
+						})
+						r.Ob(rule, fi.Name+"/"+prm.Name()+"-deref-after-default", st.Pos(), guarded, "the flag is dereferenced only where it is known to be set (the default covers the nil case)")
+					}
+					return true
+				})
+			}
 			r.Ob(rule, fi.Name+"/"+prm.Name()+"-default", fi.Decl.Pos(), found && got == want, fmt.Sprintf("unset %s defaults to %v (lower bounds inclusive, upper bounds exclusive, the documented API default), found=%v value=%v", prm.Name(), want, found, got))
 			if defStmt != nil {
 				ast.Inspect(fi.Decl.Body, func(x ast.Node) bool {
@@ -2658,45 +2727,83 @@ func ruleNilGuardProtectsItsSubject(r *Report, rule string, pkgs ...string) {
 				continue
 			}
 			info := fi.Pkg.TypesInfo
+			var g *FCFG
+			// sites: m[k] and delete(m, k) on a local map m
+			type site struct {
+				n ast.Node
+				m types.Object
+			}
+			var sites []site
 			ast.Inspect(fi.Decl.Body, func(x ast.Node) bool {
-				is, ok := x.(*ast.IfStmt)
-				if !ok {
-					return true
+				if _, isLit := x.(*ast.FuncLit); isLit {
+					return false
 				}
-				e, isEq, isNil := nilTest(info, is.Cond)
-				if !isNil || isEq {
-					return true
-				}
-				subj := objOf(info, e)
-				if subj == nil {
-					return true
-				}
-				mt, ok := subj.Type().Underlying().(*types.Map)
-				if !ok {
-					return true
-				}
-				n++
-				used := readsVar(info, is.Body, subj)
-				other := ""
-				if !used {
-					ast.Inspect(is.Body, func(y ast.Node) bool {
-						if ix, ok := y.(*ast.IndexExpr); ok {
-							if o := objOf(info, ix.X); o != nil && o != subj && types.Identical(o.Type().Underlying(), mt) {
-								other = o.Name()
+				switch y := x.(type) {
+				case *ast.IndexExpr:
+					if o := objOf(info, y.X); o != nil {
+						if _, ok := o.Type().Underlying().(*types.Map); ok {
+							if v, ok := o.(*types.Var); ok && !v.IsField() {
+								sites = append(sites, site{y, o})
 							}
 						}
-						return true
-					})
+					}
+				case *ast.CallExpr:
+					if calleeBuiltin(info, y) == "delete" && len(y.Args) == 2 {
+						if o := objOf(info, y.Args[0]); o != nil {
+							if v, ok := o.(*types.Var); ok && !v.IsField() {
+								sites = append(sites, site{y, o})
+							}
+						}
+					}
 				}
-				r.Fn(fi)
-				r.Ob(rule, fi.Name+"/guard-"+subj.Name()+"-used-in-its-branch", is.Pos(), used || other == "",
-					"the branch is guarded by `"+exprStr(is.Cond)+"` but never uses "+subj.Name()+"; it indexes "+other+" (a different map of the same type) instead: the guard was copied from a sibling branch and decides on the wrong collection")
 				return true
 			})
+			for _, st := range sites {
+				if g == nil {
+					g = buildCFG(info, fi.Decl.Body)
+				}
+				// local maps of the same type known to be non-nil here
+				var subjects []types.Object
+				for _, fc := range g.GuardsOf(st.n) {
+					e, isEq, isNil := nilTest(info, fc.Expr)
+					if fc.Tag != nil || !isNil || isEq == fc.Truth {
+						continue
+					}
+					o := objOf(info, e)
+					if o == nil || !types.Identical(o.Type().Underlying(), st.m.Type().Underlying()) {
+						continue
+					}
+					dup := false
+					for _, q := range subjects {
+						if q == o {
+							dup = true
+						}
+					}
+					if !dup {
+						subjects = append(subjects, o)
+					}
+				}
+				if len(subjects) == 0 {
+					continue
+				}
+				n++
+				own := false
+				other := ""
+				for _, q := range subjects {
+					if q == st.m {
+						own = true
+					} else {
+						other = q.Name()
+					}
+				}
+				r.Fn(fi)
+				r.Ob(rule, fi.Name+"/use-of-"+st.m.Name()+"-guarded-by-its-own-nil-test", st.n.Pos(), own,
+					"this use of "+st.m.Name()+" is reached only when "+other+" (a different map of the same type) is non-nil, while "+st.m.Name()+" itself is not tested: the guard was copied from a sibling branch and decides on the wrong collection")
+			}
 		}
 	}
 	if n < 2 {
-		undecidedf("nil-guard rule matched %d guards", n)
+		undecidedf("nil-guard rule matched %d guarded map uses", n)
 	}
 }
 
@@ -4157,19 +4264,82 @@ func ruleRangeBoundsAreOpaqueBits(r *Report, rule string) {
 		undecidedf("%s: expected two *float64 bounds", fi.Name)
 	}
 	n := 0
-	ast.Inspect(fi.Decl.Body, func(x ast.Node) bool {
-		st, ok := x.(*ast.StarExpr)
-		if !ok || !bounds[objOf(info, st.X)] {
+	// the bound's value: a dereference of a bound parameter, or a local that received one by plain copy
+	tainted := map[types.Object]bool{}
+	isBoundValue := func(e ast.Expr) bool {
+		switch y := ast.Unparen(e).(type) {
+		case *ast.StarExpr:
+			return bounds[objOf(info, y.X)]
+		case *ast.Ident:
+			return tainted[info.Uses[y]]
+		}
+		return false
+	}
+	for changed := true; changed; {
+		changed = false
+		ast.Inspect(fi.Decl.Body, func(x ast.Node) bool {
+			as, ok := x.(*ast.AssignStmt)
+			if !ok || len(as.Lhs) != len(as.Rhs) {
+				return true
+			}
+			for k := range as.Rhs {
+				if isBoundValue(as.Rhs[k]) {
+					if id, ok := as.Lhs[k].(*ast.Ident); ok {
+						if o := info.ObjectOf(id); o != nil && !tainted[o] {
+							tainted[o] = true
+							changed = true
+						}
+					}
+				}
+			}
 			return true
+		})
+	}
+	seenKey := map[string]int{}
+	ast.Inspect(fi.Decl.Body, func(x ast.Node) bool {
+		e, isExpr := x.(ast.Expr)
+		if !isExpr {
+			return true
+		}
+		switch y := e.(type) {
+		case *ast.StarExpr:
+			if !bounds[objOf(info, y.X)] {
+				return true
+			}
+		case *ast.Ident:
+			if !tainted[info.Uses[y]] {
+				return true
+			}
+		default:
+			return true
+		}
+		anc := enclosing(fi.Decl.Body, e)
+		if len(anc) >= 2 {
+			if as, isAs := anc[len(anc)-2].(*ast.AssignStmt); isAs {
+				for _, l := range as.Lhs {
+					if l == e {
+						return true // being assigned, not used
+					}
+				}
+			}
 		}
 		n++
 		ok2 := false
-		anc := enclosing(fi.Decl.Body, st)
-		// innermost enclosing call must be Float64ToInt64 with the deref as its direct argument
 		for i := len(anc) - 2; i >= 0; i-- { // anc ends with the node itself
 			if c, isCall := anc[i].(*ast.CallExpr); isCall {
-				if f := callee(info, c); f != nil && f.Name() == "Float64ToInt64" && len(c.Args) == 1 && ast.Unparen(c.Args[0]) == ast.Expr(st) {
+				if f := callee(info, c); f != nil && f.Name() == "Float64ToInt64" && len(c.Args) == 1 && ast.Unparen(c.Args[0]) == e {
 					ok2 = true
+				}
+				break
+			}
+			if as, isAs := anc[i].(*ast.AssignStmt); isAs && len(as.Lhs) == len(as.Rhs) {
+				// a plain copy into a local (which is then subject to the same rule)
+				for k := range as.Rhs {
+					if ast.Unparen(as.Rhs[k]) == e {
+						if _, isId := as.Lhs[k].(*ast.Ident); isId {
+							ok2 = true
+						}
+					}
 				}
 				break
 			}
@@ -4177,7 +4347,9 @@ func ruleRangeBoundsAreOpaqueBits(r *Report, rule string) {
 				break
 			}
 		}
-		r.Ob(rule, fi.Name+"/"+exprStr(st)+"-only-converted-to-its-int64-code", st.Pos(), ok2, "the bound "+exprStr(st)+" is used as a number (float predicate, comparison or arithmetic) instead of being handed straight to numeric.Float64ToInt64: date bounds arrive as int64 nanoseconds reinterpreted as float64, for which NaN/Inf/ordering tests are meaningless (timestamps after 2262-02-18 are NaN bit patterns)")
+		key := exprStr(e)
+		seenKey[key]++
+		r.Ob(rule, fi.Name+"/"+key+"-only-converted-to-its-int64-code", e.Pos(), ok2, "the bound "+key+" is used as a number (float predicate, comparison or arithmetic) instead of being handed straight to numeric.Float64ToInt64: date bounds arrive as int64 nanoseconds reinterpreted as float64, for which NaN/Inf/ordering tests are meaningless (timestamps after 2262-02-18 are NaN bit patterns)")
 		return true
 	})
 	if n < 2 {
@@ -4643,17 +4815,14 @@ func rulePageTrimCoversSizeZero(r *Report, rule string) {
 	g := buildCFG(info, fi.Decl.Body)
 	n := 0
 	ast.Inspect(fi.Decl.Body, func(x ast.Node) bool {
-		as, ok := x.(*ast.AssignStmt)
-		if !ok || len(as.Rhs) != 1 {
-			return true
-		}
-		se, ok := ast.Unparen(as.Rhs[0]).(*ast.SliceExpr)
+		se, ok := x.(*ast.SliceExpr)
 		if !ok || se.High == nil || !isField(info, se.High, "SearchRequest", "Size") {
 			return true
 		}
+		as := se // the cut may be assigned or returned directly
 		n++
 		bad := ""
-		for _, fct := range g.GuardsOf(as) {
+		for _, fct := range g.GuardsOf(se) {
 			be, isB := ast.Unparen(fct.Expr).(*ast.BinaryExpr)
 			if !isB || !isField(info, be.X, "SearchRequest", "Size") {
 				continue
@@ -5683,5 +5852,126 @@ func ruleMemoKeyCoversInputs(r *Report, rule string, minSites int, allow map[str
 	}
 	if n < minSites {
 		undecidedf("memo rule matched %d memo stores (expected at least %d)", n, minSites)
+	}
+}
+
+// ruleOptionalFieldEqualityKeepsAbsence (K9b): a two-operand equality method
+// (receiver *T, one *T parameter, bool result) over a struct with OPTIONAL
+// fields (pointer to a basic type: an absent bound is nil) must keep "absent"
+// distinct from every value.  For each such field the method has to decide on
+// the nil-ness of BOTH operands' field - in its own body, or in a helper that
+// receives both fields - before comparing pointees.  A helper that maps one
+// pointer to one value (nil -> 0) erases the distinction: "no lower bound" and
+// "lower bound 0" become the same range and their counts are merged.
+func ruleOptionalFieldEqualityKeepsAbsence(r *Report, rule string, pkgRel string) {
+	p := r.P
+	n := 0
+	nilTested := func(info *types.Info, body ast.Node, match func(e ast.Expr) bool) bool {
+		found := false
+		ast.Inspect(body, func(x ast.Node) bool {
+			if be, ok := x.(*ast.BinaryExpr); ok {
+				if e, _, isNil := nilTest(info, be); isNil && match(ast.Unparen(e)) {
+					found = true
+				}
+			}
+			return true
+		})
+		return found
+	}
+	for _, fi := range p.funcsInPkg(pkgRel) {
+		if fi.Decl.Body == nil || fi.Decl.Recv == nil {
+			continue
+		}
+		sig := fi.Obj.Type().(*types.Signature)
+		if sig.Params().Len() != 1 || sig.Results().Len() != 1 || !types.Identical(sig.Params().At(0).Type(), sig.Recv().Type()) {
+			continue
+		}
+		if b, ok := sig.Results().At(0).Type().Underlying().(*types.Basic); !ok || b.Kind() != types.Bool {
+			continue
+		}
+		nt := namedOf(sig.Recv().Type())
+		if nt == nil {
+			continue
+		}
+		st, ok := nt.Underlying().(*types.Struct)
+		if !ok {
+			continue
+		}
+		info := fi.Pkg.TypesInfo
+		recv, other := types.Object(sig.Recv()), types.Object(sig.Params().At(0))
+		for i := 0; i < st.NumFields(); i++ {
+			f := st.Field(i)
+			pt, ok := f.Type().(*types.Pointer)
+			if !ok {
+				continue
+			}
+			if _, isBasic := pt.Elem().Underlying().(*types.Basic); !isBasic {
+				continue
+			}
+			fieldOf := func(base types.Object) func(e ast.Expr) bool {
+				return func(e ast.Expr) bool {
+					sel, ok := e.(*ast.SelectorExpr)
+					return ok && info.Uses[sel.Sel] == f && objOf(info, sel.X) == base
+				}
+			}
+			isA, isB := fieldOf(recv), fieldOf(other)
+			used := false
+			ast.Inspect(fi.Decl.Body, func(x ast.Node) bool {
+				if e, ok := x.(ast.Expr); ok && (isA(e) || isB(e)) {
+					used = true
+				}
+				return true
+			})
+			if !used {
+				continue
+			}
+			n++
+			good := nilTested(info, fi.Decl.Body, isA) && nilTested(info, fi.Decl.Body, isB)
+			if !good {
+				// a helper that receives both fields and tests both parameters for nil
+				ast.Inspect(fi.Decl.Body, func(x ast.Node) bool {
+					c, ok := x.(*ast.CallExpr)
+					if !ok {
+						return true
+					}
+					ia, ib := -1, -1
+					for k, a := range c.Args {
+						if isA(ast.Unparen(a)) {
+							ia = k
+						}
+						if isB(ast.Unparen(a)) {
+							ib = k
+						}
+					}
+					if ia < 0 || ib < 0 {
+						return true
+					}
+					cf := callee(info, c)
+					if cf == nil {
+						return true
+					}
+					h := p.funcs[funcName(cf)]
+					if h == nil || h.Decl.Body == nil {
+						return true
+					}
+					hs := cf.Type().(*types.Signature)
+					hinfo := h.Pkg.TypesInfo
+					pa, pb := hs.Params().At(ia), hs.Params().At(ib)
+					isParam := func(v *types.Var) func(e ast.Expr) bool {
+						return func(e ast.Expr) bool { return objOf(hinfo, e) == types.Object(v) }
+					}
+					if nilTested(hinfo, h.Decl.Body, isParam(pa)) && nilTested(hinfo, h.Decl.Body, isParam(pb)) {
+						good = true
+					}
+					return true
+				})
+			}
+			r.Fn(fi)
+			r.Ob(rule, fi.Name+"/optional-"+f.Name()+"-absent-is-not-a-value", fi.Decl.Pos(), good,
+				"optional field "+f.Name()+" of "+nt.Obj().Name()+" (nil = no bound) is compared without deciding on the nil-ness of both operands: an absent bound is folded into some value, so a range without the bound and a range with that value as bound count as the same range and are merged")
+		}
+	}
+	if n < 4 {
+		undecidedf("optional-field equality rule matched %d fields in %s", n, pkgRel)
 	}
 }
